@@ -56,7 +56,7 @@ CONT  == "\\n"          \* backslash-newline inside a logical line (continuation
 QUOTE == "\""
 LABELTOK == "__LABEL__"
 Punct == {SP, COMMA, BS, CONT, QUOTE, LABELTOK, "+", "-", "_", "'", ":", "(", ")", "<", ">", "=", "{", "}",
-          "!", ".", "*"}
+          "!", ".", "*", "#", "$", "%", "&", "/", ";", "?", "@", "[", "]", "^", "`", "|", "~"}        \* every ASCII punctuation character
 CtrlTok(k) == "^" \o ToString(k)
 CtrlToks == {CtrlTok(k) : k \in 1..32}
 IsCtrl(t) == t \in CtrlToks
@@ -76,6 +76,16 @@ JoinWith(ss, sep) ==
   IF ss = <<>> THEN <<>> ELSE IF Len(ss) = 1 THEN ss[1] ELSE ss[1] \o <<sep>> \o JoinWith(Tail(ss), sep)
 
 FirstIdx(s, x) == IF x \in Range(s) THEN CHOOSE i \in DOMAIN s : s[i] = x /\ \A j \in 1..(i-1) : s[j] # x ELSE 0
+
+\* QuotPos(): first occurrence of x outside '...' and "..."
+RECURSIVE QuotScan(_, _, _, _)
+QuotScan(s, x, i, q) ==
+  IF i > Len(s) THEN 0
+  ELSE IF q = "" /\ s[i] = x THEN i
+  ELSE IF q = "" /\ s[i] \in {"'", "\""} THEN QuotScan(s, x, i + 1, s[i])
+  ELSE IF q # "" /\ s[i] = q THEN QuotScan(s, x, i + 1, "")
+  ELSE QuotScan(s, x, i + 1, q)
+QuotIdx(s, x) == QuotScan(s, x, 1, "")
 
 RECURSIVE SplitOn(_, _)
 SplitOn(s, sep) ==            \* n separators -> n+1 pieces
@@ -111,7 +121,7 @@ Glue(ts) == IF ts = <<>> THEN "" ELSE ts[1] \o Glue(Tail(ts))
 LabName(l) == Glue(LabOf(l))
 
 IsCtrlArg(a) == Len(a) >= 2 /\ a[1] = "{" /\ a[Len(a)] = "}"
-CtrlName(a) == IF Len(a) = 3 THEN a[2] ELSE ""
+CtrlName(a) == IF Len(a) >= 3 THEN a[2] ELSE ""          \* {NAME} or {NAME:section}
 
 \* --- integer expressions the macro processor itself evaluates (REPT count, WHILE/IF condition, SET) --
 NumSeq == [i \in 1..(MaxNum + 1) |-> ToString(i - 1)]        \* constant: evaluated once
@@ -390,7 +400,8 @@ AddWait(st) == PushOut(st, BaseOut)
 
 NestAfter(o, op) == IF MacroStart(op) THEN o.nest + 1 ELSE IF MacroEnd(op) THEN o.nest - 1 ELSE o.nest
 
-OutProcess(st, l) ==
+\* l decides (its op field), raw is what gets stored; in the closed model they are the same line
+OutProcessR(st, l, raw) ==
   LET o == Head(st.outs)
       n == NestAfter(o, OpOf(l))
       rest == Tail(st.outs)
@@ -398,7 +409,7 @@ OutProcess(st, l) ==
             IF n <= -1 THEN [st EXCEPT !.outs = rest] ELSE [st EXCEPT !.outs = <<[o EXCEPT !.nest = n]>> \o rest]
        [] o.kind = "MACRO" ->                                                  \* MACRO_OutProcessor
             IF n # -1
-            THEN LET s0 == KillCtrl(l)
+            THEN LET s0 == KillCtrl(raw)
                      s1 == CompressAll(o.mac.pnames, 1, s0)
                      s2 == IF HasAttrs THEN CompressLine("ATTRIBUTE", TokATTR, s1) ELSE s1
                      s3 == CompressLine("ARGCOUNT", TokNUM, s2)
@@ -415,7 +426,7 @@ OutProcess(st, l) ==
                     ELSE [st EXCEPT !.outs = rest]
        [] o.kind = "IRP" ->                                                    \* IRP_OutProcessor (IRP, IRPN, IRPC)
             IF n > -1
-            THEN LET s0 == KillCtrl(l)
+            THEN LET s0 == KillCtrl(raw)
                      pit == IF o.tag.parIter = 0 THEN 1 ELSE o.tag.parIter
                      s1 == CompressAll(SubSeq(o.pnames, 1, Min(pit, Len(o.pnames))), 1, s0)
                  IN [st EXCEPT !.outs = <<[o EXCEPT !.nest = n, !.tag.lines = Append(@, s1), !.tag.lineCnt = @ + 1]>> \o rest]
@@ -427,18 +438,19 @@ OutProcess(st, l) ==
                     ELSE PushTag(s1, t)
        [] o.kind = "REPT" ->                                                   \* REPT_OutProcessor: raw lines
             IF n > -1
-            THEN [st EXCEPT !.outs = <<[o EXCEPT !.nest = n, !.tag.lines = Append(@, l), !.tag.lineCnt = @ + 1]>> \o rest]
+            THEN [st EXCEPT !.outs = <<[o EXCEPT !.nest = n, !.tag.lines = Append(@, raw), !.tag.lineCnt = @ + 1]>> \o rest]
             ELSE LET t == [o.tag EXCEPT !.isEmpty = (o.tag.lines = <<>>)]
                      s1 == [st EXCEPT !.outs = rest]
                  IN IF st.cm.ifasm /\ t.parCnt > 0 THEN PushTag(s1, t) ELSE s1
        [] OTHER ->                                                             \* WHILE_OutProcessor
             IF n > -1
-            THEN [st EXCEPT !.outs = <<[o EXCEPT !.nest = n, !.tag.lines = Append(@, l), !.tag.lineCnt = @ + 1]>> \o rest]
+            THEN [st EXCEPT !.outs = <<[o EXCEPT !.nest = n, !.tag.lines = Append(@, raw), !.tag.lineCnt = @ + 1]>> \o rest]
             ELSE LET t == [o.tag EXCEPT !.isEmpty = (o.tag.lines = <<>>)]
                      s1 == [st EXCEPT !.outs = rest]
                      v == Eval(t.name, st.env)
                  IN IF v = UNDEF THEN Err(s1)
                     ELSE IF st.cm.ifasm /\ v # 0 THEN PushTag(s1, t) ELSE s1
+OutProcess(st, l) == OutProcessR(st, l, l)
 
 (***************************************************************************)
 (* 6. Produce_Code: the statements of the macro processor                  *)
@@ -450,7 +462,7 @@ GlobOf(args) ==       \* the last {GLOBALSYMBOLS}/{NOGLOBALSYMBOLS} wins
   IN c # <<>> /\ CtrlName(c[Len(c)]) = "GLOBALSYMBOLS"
 LoopCtrlOK(args) == \A i \in DOMAIN CtrlArgs(args) : CtrlName(CtrlArgs(args)[i]) \in {"GLOBALSYMBOLS", "NOGLOBALSYMBOLS"}
 MacroCtrlNames == {"GLOBALSYMBOLS", "NOGLOBALSYMBOLS", "INTLABEL", "NOINTLABEL", "EXPAND", "NOEXPAND", "EXPIF", "NOEXPIF",
-                   "EXPMACRO", "NOEXPMACRO", "EXPREST", "NOEXPREST", "EXPORT", "NOEXPORT"}
+                   "EXPMACRO", "NOEXPMACRO", "EXPREST", "NOEXPREST", "EXPORT", "NOEXPORT", "PUBLIC", "GLOBAL"}
 IsName(a) == Len(a) = 1 /\ IsWord(a[1]) /\ ~IsNumTok(a[1])
 
 ExpandIRP(st, l) ==
@@ -501,8 +513,8 @@ ExpandWHILE(st, l) ==
                  !.tag = [BaseTag(st) EXCEPT !.kind = "WHILE", !.name = p[1], !.parZ = 1, !.isMacro = TRUE, !.glob = GlobOf(a)]])
 
 \* ReadMacro: "name MACRO p1,p2=default,{ctrl}"; definitions are only taken in pass 1
-ParamName(a) == LET i == FirstIdx(a, "=") IN Trim(IF i = 0 THEN a ELSE SubSeq(a, 1, i - 1))
-ParamDef(a)  == LET i == FirstIdx(a, "=") IN IF i = 0 THEN <<>> ELSE SubSeq(a, i + 1, Len(a))
+ParamName(a) == LET i == QuotIdx(a, "=") IN Trim(IF i = 0 THEN a ELSE SubSeq(a, 1, i - 1))
+ParamDef(a)  == LET i == QuotIdx(a, "=") IN IF i = 0 THEN <<>> ELSE SubSeq(a, i + 1, Len(a))
 ReadMacro(st, l) ==
   LET a == ArgsOf(l)  p == PlainArgs(a)  c == CtrlArgs(a)
       bad == st.pass # 1 \/ LabOf(l) = <<>> \/ (\E i \in DOMAIN c : CtrlName(c[i]) \notin MacroCtrlNames)
@@ -522,7 +534,7 @@ RECURSIVE BindArgs(_, _, _, _)
 BindArgs(m, args, z, b) ==
   IF z > Len(args) THEN b
   ELSE LET a == args[z]
-           eq == FirstIdx(a, "=")
+           eq == QuotIdx(a, "=")
            n == Len(m.pnames)
        IN IF eq # 0
           THEN LET key == Trim(SubSeq(a, 1, eq - 1))
@@ -717,10 +729,10 @@ MatchFrom(ls, j, lv) ==
   ELSE MatchFrom(ls, j + 1, lv)
 
 \* binding of a call according to the manual: positional, keyword, defaults, excess
-KeyOf(a) == Trim(SubSeq(a, 1, FirstIdx(a, "=") - 1))
+KeyOf(a) == Trim(SubSeq(a, 1, QuotIdx(a, "=") - 1))
 DeclBind(m, args) ==
   LET n == Len(m.pnames)
-      isKey(a) == FirstIdx(a, "=") # 0
+      isKey(a) == QuotIdx(a, "=") # 0
       firstKey == IF \E z \in DOMAIN args : isKey(args[z]) THEN CHOOSE z \in DOMAIN args : isKey(args[z]) /\ \A y \in 1..(z-1) : ~isKey(args[y])
                   ELSE Len(args) + 1
       npos == firstKey - 1
@@ -730,7 +742,7 @@ DeclBind(m, args) ==
              \/ (\E z \in keys : \A i \in 1..n : KeyOf(args[z]) # <<m.pnames[i]>>)                  \* unknown keyword
              \/ (\E i \in 1..n : Cardinality(kfor(i)) > 1 \/ (kfor(i) # {} /\ i <= npos /\ args[i] # <<>>))
              \/ (\E i, j \in 1..n : i # j /\ m.pnames[i] = m.pnames[j])
-      val(i) == IF kfor(i) # {} THEN LET z == CHOOSE z \in kfor(i) : TRUE IN Trim(SubSeq(args[z], FirstIdx(args[z], "=") + 1, Len(args[z])))
+      val(i) == IF kfor(i) # {} THEN LET z == CHOOSE z \in kfor(i) : TRUE IN Trim(SubSeq(args[z], QuotIdx(args[z], "=") + 1, Len(args[z])))
                 ELSE IF i <= npos /\ args[i] # <<>> THEN args[i] ELSE m.defs[i]
   IN [list |-> [i \in 1..n |-> val(i)] \o SubSeq(args, n + 1, npos), bad |-> bad, given |-> Len(args)]
 
